@@ -1,0 +1,6 @@
+//go:build !verif
+
+package hub
+
+// verifPoint marks a place between two steps of a hub operation (a no-op unless built with the tag "verif")
+func (h *Hub) verifPoint(string) {}
